@@ -20,6 +20,7 @@ RULE = ("case = one (operation, argument, perturbation, n, container) cell; pert
         "against keys with an index: permuted, shifted, duplicated and relabelled index of equal "
         "length; every cell also runs the aligned control; non-trivial = every perturbed cell")
 ASSUMPTIONS = [
+    "aligned controls also under non-default indexes: every pandas argument labelled alike ('labelled') and only the keys labelled, everything else a bare array ('labelled-first')",
     'mask kinds: boolean masks are perturbed; slice and positional masks appear as fixed arguments of kernels and reductions (row-aligned operations document boolean masks only); multi-block kernel path (n_threads 2, 3) with boolean masks; facade size / cumcount / frame cells',
     "integer-position masks are indexers, not row-aligned arrays: exempt from the length rule",
     "an argument without an index (ndarray) next to keys with an index is aligned by position",
